@@ -162,8 +162,9 @@ def check_same_signature(acc, config):
     sig, body, kind = T[name]
     cfgs = ",".join(f"{k}={v}" for k, v in sorted(config.items()))
     hdriver.reset_unique_filter()
-    for idx, cname in enumerate(("First", "Second")):
-        c = e2e.Contract(cname, {"setUp()": ["STOP"], f"check_{name}({sig})": body})
+    # ... and two contracts that even share their name (Foundry allows one per file)
+    for idx, (cname, fname) in enumerate((("First", None), ("Second", None), ("Same", "a/Same.t.sol"), ("Same", "b/Same.t.sol"))):
+        c = e2e.Contract(cname, {"setUp()": ["STOP"], f"check_{name}({sig})": body}, filename=fname)
         rr = e2e.run_contract(c, options=dict(config, solver_timeout_assertion="10s"), reset_unique=False)
         acc.count("contracts")
         acc.count("tests")
@@ -173,7 +174,7 @@ def check_same_signature(acc, config):
         world0 = e2e.ref_deploy(c)
         fails = brute(c, world0, f"check_{name}({sig})", list(range(10)))
         if fails and r.exitcode == 0 and not warned(rr, f"check_{name}({sig})", ("loop", "width", "depth", "stuck")):
-            acc.violation(f"silent-pass:second-contract:{name}:{cfgs}", f"[{cfgs}] contract {cname} (#{idx + 1} with test signature check_{name}({sig}) in this process): PASS without warning although n={fails[0]} fails", {"kind": "same", "config": config})
+            acc.violation(f"silent-pass:second-contract:{name}:{cfgs}", f"[{cfgs}] contract {c.filename}:{cname} (#{idx + 1} with test signature check_{name}({sig}) in this process): PASS without warning although n={fails[0]} fails", {"kind": "same", "config": config})
             return
     acc.state(("same-signature", cfgs))
     # the same with two overloads of one test name in ONE contract
